@@ -25,3 +25,13 @@ package main
 //@   before call log.NewFileIO assert log-root-from-escaped-source: called(strings.ReplaceAll) && lastarg(strings.ReplaceAll, 0) == source && lastarg(strings.ReplaceAll, 1) == pathSep && arg0 == pathjoin(dirs.LogIn, lastret(strings.ReplaceAll, 0))
 //@   on return assert one-escape: ncalls(strings.ReplaceAll) == 1 && ncalls(stage.New) == 1 && ncalls(log.NewFileIO) == 1
 //@   modifies everything
+
+// ---------------------------------------------------------------- stages found at start-up (C15)
+
+// A stage directory found at start-up is registered under the source name it stands for (separators
+// restored) before its recovery starts: requests for that source then find the recovering gatekeeper
+// (and are answered 'unavailable') instead of getting a second, ready one from the factory.
+//@ func (*serverApp).init
+//@   before mapupdate stagers assert registered-under-its-source-name: arg1 == name && arg2 == stager && called(strings.ReplaceAll) && name == lastret(strings.ReplaceAll, 0) && lastarg(strings.ReplaceAll, 0) == lastret(io/fs.DirEntry.Name, 0)
+//@   before go sts.GateKeeper.Recover assert registered-before-recovery: arg0 == stager && has(stagers, name) && stagers[name] == stager
+//@   modifies everything
